@@ -22,6 +22,7 @@ type Obligation struct {
 	Guard   string // path condition
 	Goal    string
 	Cover   bool // must be SAT (vacuity guard)
+	SpecErr string // the clause behind this obligation cannot be evaluated against the current source
 	Src     string
 	Unit    *Unit
 	Note    string
@@ -145,6 +146,17 @@ func (u *Unit) assume(guard, fact string) {
 }
 
 func (u *Unit) note(s string) { u.notes[s] = true }
+
+// softFail: a specification clause that is only an ASSUMPTION here (a callee's postcondition, a
+// package invariant) cannot be evaluated against the current source. The assumption is dropped -
+// sound - and recorded; obligations that needed it fail on their own.
+func (u *Unit) softFail(format string, a ...any) {
+	msg := fmt.Sprintf(format, a...)
+	u.note("assumption dropped (clause does not fit the current source): " + msg)
+	u.W.droppedMu.Lock()
+	u.W.dropped[msg] = true
+	u.W.droppedMu.Unlock()
+}
 
 func (u *Unit) oblige(kind, fn, guard, goal, src, note string) *Obligation {
 	key := fn + "/" + kind
